@@ -309,4 +309,6 @@ NothingLeftAfterStop == \A x \in Sides : stopped[x] =>
     /\ ctr[x] # "connecting"                                           \* no listener
     /\ ~(\E i \in LinkIds : links[i].dialer = x /\ links[i].phase = "dial" /\ links[i].gen[x] = cgen[x])     \* no pending attempt
     /\ (sel[x] > 0 => links[sel[x]].endst[x] # "up")                    \* the active connection is shut down
+    \* ... and so is every connection this side dialled, negotiated or not (Connector._pending_connections)
+    /\ ~(\E i \in LinkIds : links[i].phase \notin {"none", "dial", "dead"} /\ links[i].dialer = x /\ links[i].endst[x] = "up")
 ====
